@@ -626,7 +626,7 @@ def finish(prop, mod, tier, seed, results, findings, wall):
     # sanity of the generators themselves: required label classes must be populated
     missing = [l for l in getattr(mod, "REQUIRED_LABELS", {}).get(tier, [])
                if labels.get(l, 0) == 0]
-    if missing and not harness_errors and not buckets:
+    if missing and not harness_errors and not buckets and not labels.get("tasks_cut_short_by_the_stall_guard"):
         print(f"HARNESS-ERROR property={prop} generator never produced: {missing}",
               file=sys.stderr)
         return 2
